@@ -54,7 +54,8 @@ def gen(ctx):
     up = lambda s: s.upper()
     # (i) exhaustive: every ordered pair over the 4-label universe (<= 2 labels, dotted and not), every ordered triple over a
     # smaller one; probes: every host of <= 3 labels over the same labels + upper-case spellings
-    p4 = names(L4, 3) + [up(x) for x in names(L4, 2)]
+    n3 = names(L4, 3)[20:]
+    p4 = names(L4, 2) + [up(x) for x in names(L4, 2)] + (n3 if ctx.thorough else rnd.sample(n3, 24))
     v4 = values(L4, 2)
     for n in (1, 2):
         for combo in itertools.product(v4, repeat=n):
@@ -67,7 +68,7 @@ def gen(ctx):
     nsmall = len(lines)
     # (ii) seeded sample of ordered triples/quadruples over the 4-label universe with <= 3 labels, mixed case
     v43 = values(L4, 3)
-    for _ in range(6000 if ctx.thorough else 1500):
+    for _ in range(6000 if ctx.thorough else 1000):
         n = rnd.choice([3, 3, 4])
         combo = [rnd.choice(v43) for _ in range(n)]
         combo = [up(v) if rnd.random() < 0.15 else v for v in combo]
